@@ -8,6 +8,7 @@
      chunk_values n s   = values of the table_size n chunks, from the left
      nibble t p         = table bits 4p .. 4p+3 as a number *)
 From Coq Require Import List NArith Arith Bool.
+From V Require Proofs.ExprsTie3.  (* whole-word regimes, fill_symmetric, text widths: regenerated from the Rust source, equal the model's *)
 From V Require Import Base.Res Model.Kernels Model.Api Spec.Bfun Proofs.Text.
 Import ListNotations.
 Open Scope N_scope.
